@@ -108,13 +108,36 @@ func hopByHopHeaderRemove(outreq, req *bfe_http.Request) {
 	// is modifying the same underlying map from req (shallow
 	// copied above) so we only copy it if necessary.
 	copiedHeaders := false
+	copyHeaders := func() {
+		if !copiedHeaders {
+			outreq.Header = make(bfe_http.Header, len(req.Header))
+			bfe_http.CopyHeader(outreq.Header, req.Header)
+			copiedHeaders = true
+		}
+	}
+
+	// Remove headers listed in the "Connection" header.
+	// See RFC 7230, section 6.1
+	for _, f := range req.Header["Connection"] {
+		for _, sf := range strings.Split(f, ",") {
+			if sf = strings.TrimSpace(sf); sf == "" {
+				continue
+			}
+			if _, ok := outreq.Header[bfe_http.CanonicalHeaderKey(sf)]; ok {
+				copyHeaders()
+				outreq.Header.Del(sf)
+			}
+		}
+	}
+
 	for _, h := range bfe_basic.HopHeaders {
-		hv := outreq.Header.Get(h)
-		if hv == "" {
+		// Note: check values directly, the first value of header may be empty
+		hvs, ok := outreq.Header[h]
+		if !ok {
 			continue
 		}
 
-		if h == "Te" && hv == "trailers" {
+		if h == "Te" && len(hvs) == 1 && hvs[0] == "trailers" {
 			// Issue 21096: tell backend applications that
 			// care about trailer support that we support
 			// trailers. (We do, but we don't go out of
@@ -124,11 +147,7 @@ func hopByHopHeaderRemove(outreq, req *bfe_http.Request) {
 			continue
 		}
 
-		if !copiedHeaders {
-			outreq.Header = make(bfe_http.Header, len(req.Header))
-			bfe_http.CopyHeader(outreq.Header, req.Header)
-			copiedHeaders = true
-		}
+		copyHeaders()
 		outreq.Header.Del(h)
 	}
 }
